@@ -56,6 +56,7 @@ class Parsed:
         self.errors = []
         self.skipped = []       # entries the probe could not exercise: every operand choice gave a node that existed before the call
         self.late = []          # late re-observations (`recheck`): Call-like records with key, inst, result, obs
+        self.stats = {}         # counters printed by the probe (`# stat <n> <what>`)
         self.complete = False
 
 
@@ -67,6 +68,10 @@ def parse_probe(text):
             continue
         if ln.startswith('# skipped '):
             P.skipped.append(ln[len('# skipped '):])
+            continue
+        if ln.startswith('# stat '):
+            n, what = ln[len('# stat '):].split(' ', 1)
+            P.stats[what] = int(n)
             continue
         tag, _, rest = ln.partition(' ')
         if tag == 'K':
@@ -188,6 +193,7 @@ def flatten(P, call):
                 if o is not None and depth < DEPTH:
                     out.append((path + '.kind', '$' + o[0]))
                     for f, fv in o[1]:
+                        f = _field(o[0], f)
                         if f != 'category':           # the category of a part is implied by its kind (property C06)
                             value(path + '.' + f, fv, depth + 1)
                 return
@@ -199,8 +205,13 @@ def flatten(P, call):
     kind, fields = o
     seen[call.result] = ''
     for f, v in fields:
-        value(f, v, 0)
+        value(_field(kind, f), v, 0)
     return kind, out
+
+
+def _field(kind, f):
+    """A token's `category()` is its TokenCategory, an operand like any other -- not the category code of a node."""
+    return 'token_category' if kind == 'Token' and f == 'category' else f
 
 
 # ------------------------------------------------------------------------------------------------ classification
